@@ -230,6 +230,8 @@ REWRITES = {
     "split_map_collect": (r"\bstr\.split\(splitter\.as_str\(\)\)\s*\.map\(\|f\| JsonValue::String\(f\.to_string\(\)\)\)\s*\.collect::<Vec<_>>\(\)", r"vsplit::split_to_strings(&str, &splitter)",
         "str.split(sep.as_str()).map(|f| JsonValue::String(f.to_string())).collect::<Vec<_>>() is the Vec of the JSON strings of the pieces str::split yields, in order (str::split itself: an uninterpreted function of text and separator)"),
     "format_val": (r"format!\(\"\{val\}\"\)", r"vdisp::display_string(&val)", "format!(\"{val}\") is the String holding Display of the value (the one-line JSON text; uninterpreted here)"),
+    "selection_from_str_fn": (r"\bSelection::from_str\(", r"vsel::selection_from_str(", "Selection::from_str called from parse_selection is the stand-in selection_from_str: the same function with, in addition to the clause unit EXPR proves for the real body, the assumption that its answer is a function of the text"),
+    "as_str_sel": (r"\bstr\.as_str\(\)", r"vsel::as_str_of(&str)", "String::as_str is the same text as a slice"),
     "pub_crate": (r"\bpub\(crate\)\s+", r"pub ", "visibility is irrelevant in a single file"),
     "deref_clone": (
         r"(\w+)\.deref\(\)\.clone\(\)", r"vrc::deref_clone(&\1)", "Rc<T>::deref().clone() clones the pointee"),
